@@ -458,6 +458,8 @@ class MessageManager(interfaces.TokenInterface, interfaces.MessageManager):
             )
             message.mid = None
 
+        piggyback_used = False
+
         if message.code.is_response():
             no_response = (message.opt.no_response or 0) & (
                 1 << message.code.class_ - 1
@@ -465,8 +467,8 @@ class MessageManager(interfaces.TokenInterface, interfaces.MessageManager):
 
             piggyback_key = (message.remote, message.token)
             if piggyback_key in self._piggyback_opportunities:
-                mid, handle = self._piggyback_opportunities.pop(piggyback_key)
-                handle.cancel()
+                mid, handle = self._piggyback_opportunities[piggyback_key]
+                piggyback_used = True
 
                 if no_response:
                     new_message = Message(code=EMPTY, mid=mid, mtype=ACK)
@@ -533,6 +535,14 @@ class MessageManager(interfaces.TokenInterface, interfaces.MessageManager):
             self._backlogs[message.remote].append((message, messageerror_monitor))
         else:
             self._send_initially(message, messageerror_monitor)
+
+        if piggyback_used:
+            # Only now that the message went out is the ACK not owed any more;
+            # had sending failed (eg. because the response can not be
+            # serialized), whatever is sent instead can still be piggybacked,
+            # or the empty ACK goes out in time.
+            self._piggyback_opportunities.pop(piggyback_key)
+            handle.cancel()
 
     def _send_initially(self, message, messageerror_monitor=None):
         """Put the message on the wire for the first time, starting retransmission timeouts"""
